@@ -431,7 +431,13 @@ fn gen_eval_bad(rng: &mut Rng, labels: &[(String, usize)], stack: bool) -> (Stri
             let v = *rng.pick(&[32, -33, 63, 64, -64, 0x7FFF]);
             (format!("{} r1 r2 {}", rng.pick(&["ldr", "str"]), asmgen::spell_lit(rng, v)), "off6-range")
         }
-        7 => (format!("{} r3 {}", rng.pick(&["ld", "ldi", "lea", "st", "sti"]), rng.pick(&["undefined_", "Val_", "nolabel", "LOOPx"])), "unknown-label"),
+        7 => {
+            let l = *rng.pick(&["undefined_", "Val_", "nolabel", "LOOPx"]);
+            match rng.below(3) {
+                0 => (format!("{} {}", rng.pick(&["jsr", "call", "br", "brnzp"]), l), "unknown-label"),
+                _ => (format!("{} r3 {}", rng.pick(&["ld", "ldi", "lea", "st", "sti"]), l), "unknown-label"),
+            }
+        }
         8 => {
             let mut s = String::new();
             for _ in 0..1 + rng.below(4) {
@@ -536,6 +542,24 @@ pub fn c15_corpus() -> Vec<SrcCase> {
     for t in ["br val", "brnzp val", "brz #0", "rti", "halt", "trap x25", "trap x1f", "trap x28", "trap xff", ".fill x3", ".break", ".orig x3000", ".end", "val", "r0", "#1", "add r0 r0", "ld r0 nolabel", "trap", "push r0", "\"abc", "xé", "jmp r0", "ret", "puts", "putn", "reg", "out", "trap x21"] {
         add(vec![Cmd::MoveReg(0, 0x41), Cmd::Eval(t.into()), Cmd::Registers], &[]);
     }
+    // every label-bearing instruction with a label that does not exist (all must be refused, none
+    // may end the session), also with the stack extension on, where `call` joins them
+    let sp_stack = SessionProg { prog: Prog::default(), stack: true, kind: "corpus" };
+    for stack in [false, true] {
+        for t in [
+            "ld r1 nolabel", "ldi r1 nolabel", "lea r1 nolabel", "st r1 nolabel", "sti r1 nolabel", "jsr nolabel", "call nolabel", "br nolabel",
+            "call val", "call", "call r0", "call #1", "push r0", "pop r1", "rets", "push", "pop val", "rets r0", "CALL Val", "call VAL",
+        ] {
+            let mut c = vec![Cmd::MoveReg(0, 0x41), Cmd::Eval(t.into()), Cmd::Registers, Cmd::Eval("add r2 r2 #1".into()), Cmd::Registers];
+            c.push(Cmd::Exit);
+            v.push(make_case("E15", if stack { &sp_stack } else { &sp }, &r, vec![], c));
+        }
+    }
+    let mut add = |cmds: Vec<Cmd>, inp: &[u8]| {
+        let mut c = cmds;
+        c.push(Cmd::Exit);
+        v.push(make_case("E15", &sp, &r, inp.to_vec(), c));
+    };
     // GETC / IN with and without input
     add(vec![Cmd::Eval("getc".into()), Cmd::Registers], b"q");
     add(vec![Cmd::Eval("in".into()), Cmd::Registers], b"\xc3");
